@@ -68,11 +68,20 @@ def sync_mirror():
     os.makedirs(CACHE, exist_ok=True)
     m = mirror_dir()
     os.makedirs(m, exist_ok=True)
-    cmd = ["rsync", "-a", "-c", "--delete", "--exclude=/_build", "--exclude=/.git",
+    cmd = ["rsync", "-a", "-c", "--delete", "-i", "--exclude=/_build", "--exclude=/.git",
            "--exclude=/website", REPO.rstrip("/") + "/", m + "/"]
     r = subprocess.run(cmd, capture_output=True, text=True)
     if r.returncode != 0:
         raise BuildError("rsync failed: " + r.stderr)
+    # Every file whose content changed gets the current time: ninja rebuilds what is *newer* than its outputs, and a
+    # file restored with its old modification time (cp -p, rsync -a, tar; git checkout does set the current time)
+    # would otherwise leave the object files of the previous content in place.
+    now = time.time()
+    for line in r.stdout.split("\n"):
+        if line.startswith(">f") and " " in line:
+            f = os.path.join(m, line.split(" ", 1)[1])
+            if os.path.isfile(f):
+                os.utime(f, (now, now))
     return m
 
 
